@@ -28,21 +28,34 @@ View == svars
 (*   E ""    A "user"   B "owner"   W "nope"   N / N2 non-Latin (no PDFDocEncoding code)          *)
 (*   L1 / L2: 32 x "a" + different tails (37 bytes)      S32: 32 x "a"                            *)
 (*   H1 / H2: 127 x "b" + different tails (130 bytes)    T127: 127 x "b"                          *)
-C4(t) == CASE t \in {"E", "N", "N2"} -> ""
+(*   M "пароль-1" (mixed)   M2 "-1" (what is left of M without the characters PDFDocEncoding lacks)   J an emoji       *)
+\* the canonical forms of the PROPERTY: a character PDFDocEncoding lacks stays what it is (N, N2, M, J are themselves)
+C4(t) == CASE t = "E" -> ""
            [] t \in {"L1", "L2", "S32"} -> "a32"
            [] t \in {"H1", "H2", "T127"} -> "b32"
            [] OTHER -> t
 C6(t) == CASE t = "E" -> ""
            [] t \in {"H1", "H2", "T127"} -> "b127"
            [] OTHER -> t
+\* ... and what lopdf makes of a revision 2-4 password today (the characters without a code are dropped)
+D4(t) == CASE t \in {"E", "N", "N2", "J"} -> ""
+           [] t \in {"M", "M2"} -> "-1"
+           [] OTHER -> C4(t)
+\* representable: revisions 2-4 every character has a PDFDocEncoding code; revisions 5-6 SASLprep accepts the text
+Repr(R, t) == IF R <= 4 THEN t \notin {"N", "N2", "M", "J"} ELSE t # "J"
 Len6(t) == CASE t = "E" -> 0 [] t \in {"H1", "H2"} -> 130 [] t = "T127" -> 127 [] t \in {"L1", "L2"} -> 37
-             [] t = "S32" -> 32 [] t = "N" -> 12 [] t = "N2" -> 6 [] OTHER -> 4
+             [] t = "S32" -> 32 [] t = "N" -> 12 [] t = "N2" -> 6 [] t = "M" -> 14 [] t = "M2" -> 2 [] OTHER -> 4
 Canon(R, t) == IF R <= 4 THEN C4(t) ELSE C6(t)
 Rel1(R, t, ref) == IF t = ref THEN "same" ELSE IF Canon(R, t) = Canon(R, ref) THEN "equiv" ELSE "diff"
-\* Revisions 2-4: an owner password whose canonical form is empty means "no owner password"; Algorithm 3 (a) then uses
-\* the user password in its place (ISO 32000-1 7.6.3.4; lopdf since the fix: commit for C06:O.R234.owner-absent)
-OwnerEff(R, u, o) == IF R <= 4 /\ C4(o) = "" THEN u ELSE o
-RelOf(t) == [u |-> Rel1(cfg.R, t, cfg.user), o |-> Rel1(cfg.R, t, OwnerEff(cfg.R, cfg.user, cfg.owner))]
+\* Revisions 2-4: an empty owner password means "no owner password"; Algorithm 3 (a) then uses the user password in its
+\* place (ISO 32000-1 7.6.3.4; lopdf since the fix: commit for C06:O.R234.owner-absent) - for lopdf today also an owner
+\* password of which nothing is left after the drop
+OwnerEff(R, u, o) == IF R <= 4 /\ o = "E" THEN u ELSE o
+OwnerEffD(R, u, o) == IF R <= 4 /\ D4(o) = "" THEN u ELSE o
+AuthD(R, t, ref) == IF R <= 4 THEN D4(t) = D4(ref) ELSE Repr(R, t) /\ C6(t) = C6(ref)
+RelFor(R, t, u, o) == [u |-> Rel1(R, t, u), o |-> Rel1(R, t, OwnerEff(R, u, o)),
+                       ud |-> AuthD(R, t, u), od |-> AuthD(R, t, OwnerEffD(R, u, o)), rep |-> Repr(R, t)]
+RelOf(t) == RelFor(cfg.R, t, cfg.user, cfg.owner)
 
 -----------------------------------------------------------------------------
 (* configurations *)
@@ -62,10 +75,13 @@ CfgV12 == {Base("V1", 1, 2, 40, TRUE, <<>>, "", "")} \cup {Base("V2", 2, 3, n, T
 Redundant(c) == \E i \in 1..Len(c.cf) : c.cf[i][1] = "Identity" /\ c.stmf # "Identity" /\ c.strf # "Identity"
 CfgSet == {c \in CfgV12 \cup CfgV4 \cup CfgV5 : ~Redundant(c)}
 
-FullCfg(b, u, o, d, n) ==
+NoAlt == [V |-> 0]
+\* alt: the configuration a Rekey switches to (NoAlt: none)
+\* (c0 / alt0: the configuration and alternative the behaviour began with, for the emission)
+FullCfg(b, u, o, d, n, alt, c0, alt0) ==
     [name |-> b.name, V |-> b.V, R |-> b.R, klen |-> b.klen, em |-> b.em, cf |-> b.cf, stmf |-> b.stmf, strf |-> b.strf,
      user |-> u, owner |-> o, dn |-> d, nobj0 |-> n, ulen |-> Len6(u), olen |-> Len6(o),
-     e |-> [u |-> Rel1(b.R, "E", u), o |-> Rel1(b.R, "E", OwnerEff(b.R, u, o))]]
+     urep |-> Repr(b.R, u), orep |-> Repr(b.R, o), e |-> RelFor(b.R, "E", u, o), alt |-> alt, c0 |-> c0, alt0 |-> alt0]
 
 -----------------------------------------------------------------------------
 (* documents *)
@@ -116,11 +132,13 @@ ObjJson(o) ==
 ASSUME \A d \in DocIds : PrintT(<<"DOC", ToJson([dn |-> d, objs |-> [i \in DOMAIN DocOf(d) |-> ObjJson(DocOf(d)[i])]])>>)
 
 \* password pairs <<user, owner>> and offered tokens used by the configurations
-PairsQuick == {<<"A", "B">>, <<"E", "B">>, <<"A", "E">>, <<"A", "A">>, <<"N", "B">>, <<"H1", "B">>}
-PairsFull  == PairsQuick \cup {<<"E", "E">>, <<"L1", "B">>, <<"A", "L1">>, <<"A", "H1">>, <<"N", "N2">>, <<"B", "N">>, <<"H1", "H1">>}
+PairsQuick == {<<"A", "B">>, <<"E", "B">>, <<"A", "E">>, <<"A", "A">>, <<"N", "B">>, <<"H1", "B">>, <<"A", "N">>, <<"M", "B">>}
+PairsFull  == PairsQuick \cup {<<"E", "E">>, <<"L1", "B">>, <<"A", "L1">>, <<"A", "H1">>, <<"N", "N2">>, <<"B", "N">>, <<"H1", "H1">>,
+                               <<"J", "B">>, <<"A", "J">>, <<"N", "N">>, <<"M2", "M">>}
 AttemptsQuick == {"W", "E"}
-AttemptsFull  == {"W", "E", "L2", "S32", "H2", "T127", "N2"}
-AllKnown == {"owner.R234.key", "streamdict.string", "pw.gt127.R56", "crypt.dparray", "metadata.nonstream", "restored.objstm.member"}
+AttemptsFull  == {"W", "E", "L2", "S32", "H2", "T127", "N2", "M2", "M", "J"}
+AllKnown == {"owner.R234.key", "streamdict.string", "pw.gt127.R56", "crypt.dparray", "metadata.nonstream", "restored.objstm.member",
+             "pw.unencodable.R234", "crypt.belowV4", "metadata.streamdict"}
 \* documents in the state a loader leaves them in; the caller may edit these objects of them (each once) while unencrypted
 FileDocs == {"D5", "D6"}
 EditPos(d) == IF d = "D5" THEN {1, 3} ELSE IF d = "D6" THEN {1} ELSE {}
@@ -134,11 +152,15 @@ Combo(b, p, d) ==
     Prune => \/ p = <<"A", "B">> /\ (d \in FileDocs => Rep(b))
              \/ d = "D1" /\ Rep(b)
 
+\* a document protected with V 4 / 5 (per-stream overrides: D2), decrypted, and protected again with V 2
+AltOf(b, p, d) == IF d = "D2" /\ b.V >= 4 /\ p = <<"A", "B">> THEN Base("V2", 2, 3, 128, TRUE, <<>>, "", "") ELSE NoAlt
+
 Init ==
-    /\ \E b \in CfgSet, p \in Pairs, d \in DocIds : Combo(b, p, d) /\ SysInit(FullCfg(b, p[1], p[2], d, NObj(DocOf(d))), DocOf(d))
+    /\ \E b \in CfgSet, p \in Pairs, d \in DocIds : Combo(b, p, d) /\ SysInit(FullCfg(b, p[1], p[2], d, NObj(DocOf(d)), AltOf(b, p, d), b, AltOf(b, p, d)), DocOf(d))
     /\ hist = <<>>
 
-Toks == {cfg.user, cfg.owner} \cup Attempts
+\* with a password that has characters PDFDocEncoding lacks: also offers that differ from it in such characters only
+Toks == {cfg.user, cfg.owner} \cup Attempts \cup (IF {cfg.user, cfg.owner} \cap {"N", "N2", "M", "J"} # {} THEN {"N2", "M2"} ELSE {})
 
 \* the step just made, as the harness will see it: call, offered password, what the model predicts, what the judge says
 Entry ==
@@ -163,9 +185,10 @@ Edited(o) == CASE o.k = "str" -> o.pl.ed > 0
                [] o.k \in {"arr", "dict"} -> \E i \in DOMAIN o.v : Edited(o.v[i])
                [] o.k = "stream" -> o.pl.ed > 0
                [] OTHER -> FALSE
+RekeyH     == cfg.alt.V # 0 /\ Rekey(FullCfg(cfg.alt, cfg.user, cfg.owner, cfg.dn, cfg.nobj0, NoAlt, cfg.c0, cfg.alt0)) /\ Rec
 EditH      == \E pos \in EditPos(cfg.dn) : ~Edited(doc[pos]) /\ Edit(pos) /\ Rec
 
-Next == MakeStateH \/ EncryptH \/ SaveH \/ LoadH \/ DecryptH \/ AuthUserH \/ AuthOwnerH \/ AuthH \/ EditH
+Next == MakeStateH \/ EncryptH \/ SaveH \/ LoadH \/ DecryptH \/ AuthUserH \/ AuthOwnerH \/ AuthH \/ EditH \/ RekeyH
 
 Spec == Init /\ [][Next]_vars
 
@@ -183,8 +206,10 @@ JudgeTracks ==
     /\ j.mem = "enc" => trailerEncrypt # 0
     /\ j.disk = "none" <=> disk = NoDisk
 
-CfgJson == [name |-> cfg.name, V |-> cfg.V, R |-> cfg.R, klen |-> cfg.klen, em |-> cfg.em, cf |-> cfg.cf, stmf |-> cfg.stmf,
-            strf |-> cfg.strf, user |-> cfg.user, owner |-> cfg.owner, dn |-> cfg.dn, e |-> cfg.e, ulen |-> cfg.ulen, olen |-> cfg.olen]
+CfgJson == LET i == FullCfg(cfg.c0, cfg.user, cfg.owner, cfg.dn, cfg.nobj0, cfg.alt0, cfg.c0, cfg.alt0) IN
+           [name |-> i.name, V |-> i.V, R |-> i.R, klen |-> i.klen, em |-> i.em, cf |-> i.cf, stmf |-> i.stmf,
+            strf |-> i.strf, user |-> i.user, owner |-> i.owner, dn |-> i.dn, e |-> i.e, ulen |-> i.ulen, olen |-> i.olen,
+            urep |-> i.urep, orep |-> i.orep, alt |-> i.alt0]
 
 EmitInv == (Emit /\ hist # <<>> /\ Len(hist) <= MaxDepth) => PrintT(<<"REPLAY", ToJson([cfg |-> CfgJson, calls |-> hist])>>)
 =============================================================================
